@@ -626,3 +626,136 @@ def order_api(rng, name, same_short=False):
     tags.add("retry-config")
     api.options = ["transport=grpc+rest", "metadata", "autogen-snippets"]
     return api
+
+
+REQ_SCALARS = list(SCALARS)
+
+
+def rest_api(rng, name, numeric=False, nmethods=10):
+    """HTTP-binding heavy API (C04): every verb, additional bindings, nested
+    and multi-segment path variables, '*'/field/absent body, required fields of
+    every scalar kind in query position, unbound and streaming RPCs."""
+    api = Api(name)
+    tags = api.tags
+    ver = "v1"
+    pkg = f"vp.{name}.{ver}"
+    P = "." + pkg
+    f = File(f"vp/{name}/{ver}/{name}.proto", pkg, deps=list(STD_DEPS))
+    api.add(f)
+    color = f.enum("Color", "COLOR_UNSPECIFIED", "RED", "GREEN", "BLUE", numbers=[0, 1, 2, 5])
+    pay = f.message("Payload")
+    pay.field("title", "string")
+    pay.field("count", "int64")
+    pay.field("color", color)
+    pay.field("ratio", "double")
+    pay.field("blob", "bytes")
+    pay.field("tags", "string", repeated=True)
+    pay.field("colors", color, repeated=True)
+    pay.map("labels", "string", "string")
+    pay.map("by_num", "int32", P + ".Leaf")
+    pay.field("leaf", P + ".Leaf")
+    pay.field("leaves", P + ".Leaf", repeated=True)
+    pay.field("when", ".google.protobuf.Timestamp")
+    pay.field("extra", ".google.protobuf.Struct")
+    pay.field("opt_flag", "bool", optional=True)
+    pay.field("class", "string")
+    pay.field("kind_a", "string", oneof="kind")
+    pay.field("kind_b", "sint32", oneof="kind")
+    leaf = f.message("Leaf")
+    leaf.field("id", "string")
+    leaf.field("n", "int32")
+    leaf.field("color", color)
+    leaf.field("o", "string", optional=True)
+    sub = f.message("Sub")
+    sub.field("id", "string")
+    sub.field("kind", "string")
+    sub.field("num", "int32")
+    sub.field("leaf", P + ".Leaf")
+    sub.field("color", color)
+    sub.field("notes", "string", repeated=True)
+    resp = f.message("Reply")
+    resp.field("name", "string")
+    resp.field("payload", P + ".Payload")
+    resp.field("color", color)
+    resp.field("big", "uint64")
+    resp.field("items", P + ".Leaf", repeated=True)
+    s = f.service("Rest", host=f"{name}.googleapis.com")
+    shapes = ["get_name", "list_parent", "create_body_field", "update_nested", "act_star", "delete", "put_multi",
+              "two_vars", "addl_get", "addl_body_mix", "int_var", "star_nested"]
+    rng.shuffle(shapes)
+    for i, shape in enumerate(shapes[:nmethods]):
+        q = f.message(f"Req{i}")
+        q.field("name", "string")
+        q.field("parent", "string")
+        q.field("sub", P + ".Sub")
+        q.field("payload", P + ".Payload")
+        q.field("part_num", rng.choice(["int32", "int64", "uint32"]))
+        # query-position fields
+        nreq = rng.randint(0, 4)
+        for j, t in enumerate(rng.sample(REQ_SCALARS, nreq)):
+            q.field(f"req_{t}", t, required=True)
+            tags.add("required:" + t)
+        for j, t in enumerate(rng.sample(REQ_SCALARS, rng.randint(1, 5))):
+            q.field(f"q_{t}", t)
+        if rng.random() < 0.7:
+            q.field("q_color", color, required=rng.random() < 0.3)
+        if rng.random() < 0.5:
+            q.field("q_colors", color, repeated=True)
+        if rng.random() < 0.5:
+            q.field("q_strs", "string", repeated=True)
+        if rng.random() < 0.5:
+            q.field("q_ints", rng.choice(["int32", "uint64", "sint64"]), repeated=True)
+        if rng.random() < 0.6:
+            q.field("q_leaf", P + ".Leaf")
+        if rng.random() < 0.5:
+            q.field("q_opt", rng.choice(["string", "int32", "bool", "double"]), optional=True)
+        if rng.random() < 0.5:
+            q.field("q_when", ".google.protobuf.Timestamp")
+        if rng.random() < 0.4:
+            q.field("q_ttl", ".google.protobuf.Duration")
+        if rng.random() < 0.4:
+            q.field("q_mask", ".google.protobuf.FieldMask")
+        if rng.random() < 0.4:
+            q.field("q_wrapped", ".google.protobuf." + rng.choice(["Int32Value", "StringValue", "BoolValue", "DoubleValue", "UInt64Value"]))
+        if rng.random() < 0.3:
+            q.field("type", "string")
+        out = rng.choice([P + ".Reply", P + ".Reply", P + ".Payload", ".google.protobuf.Empty"])
+        kw = {}
+        if shape == "get_name":
+            kw = dict(http={"get": f"/{ver}/{{name=things/*}}"})
+        elif shape == "list_parent":
+            kw = dict(http={"get": f"/{ver}/{{parent=projects/*}}/things"})
+        elif shape == "create_body_field":
+            kw = dict(http={"post": f"/{ver}/{{parent=projects/*}}/things"}, body="payload")
+        elif shape == "update_nested":
+            kw = dict(http={"patch": f"/{ver}/{{sub.id=things/*}}"}, body="sub")
+        elif shape == "act_star":
+            kw = dict(http={"post": f"/{ver}/{{name=things/*}}:act"}, body="*")
+        elif shape == "delete":
+            kw = dict(http={"delete": f"/{ver}/{{name=things/*/parts/*}}"})
+        elif shape == "put_multi":
+            kw = dict(http={"put": f"/{ver}/{{name=things/*/files/**}}"}, body="payload")
+        elif shape == "two_vars":
+            kw = dict(http={"get": f"/{ver}/{{parent=projects/*}}/things/{{sub.kind}}"})
+        elif shape == "addl_get":
+            kw = dict(http={"get": f"/{ver}/{{name=things/*}}:peek"},
+                      extra=[({"get": f"/{ver}/{{name=organizations/*/things/*}}:peek"}, None),
+                             ({"get": f"/{ver}/{{parent=folders/*}}/peek"}, None)])
+        elif shape == "addl_body_mix":
+            kw = dict(http={"post": f"/{ver}/{{name=things/*}}:mix"}, body="*",
+                      extra=[({"post": f"/{ver}/{{name=organizations/*/things/*}}:mix"}, "*"),
+                             ({"put": f"/{ver}/{{parent=folders/*}}/mix"}, "*")])
+        elif shape == "int_var":
+            kw = dict(http={"get": f"/{ver}/{{parent=projects/*}}/parts/{{part_num}}"})
+        elif shape == "star_nested":
+            kw = dict(http={"post": f"/{ver}/{{sub.id=things/*}}/{{sub.kind=kinds/*}}:go"}, body="*")
+        tags.add("shape:" + shape)
+        s.rpc(f"Do{i}", P + f".Req{i}", out, **kw)
+    # unbound + streaming
+    s.rpc("Unbound", P + ".Req0", P + ".Reply")
+    s.rpc("Upload", P + ".Req0", P + ".Reply", cs=True, http={"post": f"/{ver}/{{name=things/*}}:upload"}, body="*")
+    s.rpc("Tail", P + ".Req0", P + ".Leaf", ss=True, http={"get": f"/{ver}/{{name=things/*}}:tail"})
+    tags.update(["unbound-rpc", "client-streaming", "server-streaming"])
+    api.options = ["transport=rest"] + (["rest-numeric-enums"] if numeric else [])
+    api.info.update(pkg=pkg, version=ver, ns=["vp"], name=name, host=f"{name}.googleapis.com")
+    return api
